@@ -21,9 +21,9 @@ def diff_canon(gen: dict, ref: dict, limit=40) -> list[str]:
         a, b = gc[k], rc[k]
         if a == b:
             continue
-        for attr in ("type", "version", "flexible", "api_key", "header", "params"):
-            if a[attr] != b[attr]:
-                out.append(f"{k}: {attr} {a[attr]!r} != {b[attr]!r}")
+        for attr in ("type", "version", "flexible", "api_key", "header", "params", "members", "bases"):
+            if a.get(attr) != b.get(attr):
+                out.append(f"{k}: {attr} {a.get(attr)!r} != {b.get(attr)!r}")
         fa = {f["name"]: f for f in a["fields"]}
         fb = {f["name"]: f for f in b["fields"]}
         if [f["name"] for f in a["fields"]] != [f["name"] for f in b["fields"]]:
